@@ -184,9 +184,13 @@ def run(facts, rep, ctx):
             rep.violation(R1, ser.name, "hdr:magic", "builder writes magic %s as %s-byte %s-endian; parser reads %s and compares with %s" % (
                 fmt(magic_w), header[0]["width"], header[0]["endian"], (hdr_reads[0]["width"], hdr_reads[0]["endian"]) if hdr_reads else None, hex(pmagic) if pmagic is not None else None), wh)
         cnt = header[1]["value"]
-        cnt_ok = any(x[0] == "call" and x[1].endswith("::len") and strip_refs(x[2][0])[0] == "param" for x in walk(cnt))
-        if len(hdr_reads) >= 2 and (hdr_reads[1]["width"], hdr_reads[1]["endian"]) == (header[1]["width"], header[1]["endian"]) and cnt_ok:
+        cnt_full = deep(nv, cnt)        # through named locals (`let file_count = contents.len();`)
+        cnt_ok = any(x[0] == "call" and x[1].endswith("::len") and strip_refs(x[2][0])[0] == "param" for x in walk(cnt_full))
+        same_shape = len(hdr_reads) >= 2 and (hdr_reads[1]["width"], hdr_reads[1]["endian"]) == (header[1]["width"], header[1]["endian"])
+        if same_shape and cnt_ok:
             rep.ok(R1, {"header": "count", "width": header[1]["width"], "endian": header[1]["endian"]})
+        elif same_shape and any(x[0] == "local" for x in walk(cnt_full)):
+            rep.inconc(R1, "builder: where the header count %s comes from was not followed" % fmt(cnt)[:50])
         else:
             rep.violation(R1, ser.name, "hdr:count", "builder writes the count as %s (%s bytes, %s), parser reads %s" % (fmt(cnt)[:50], header[1]["width"], header[1].get("endian"), (hdr_reads[1]["width"], hdr_reads[1]["endian"]) if len(hdr_reads) > 1 else None), wh)
         # parser position after the header
@@ -445,6 +449,16 @@ def run(facts, rep, ctx):
         if rs and rx and ins:
             best = (p, evs, sp, rs, rx, ins)
     if best is None:
+        # names read in a loop that never positions the cursor: they are taken back to back from wherever the first
+        # one was, and the recorded name address of every later entry is ignored
+        lps = for_loops(par)
+        for lp in lps:
+            blocks = set(lp["blocks"])
+            reads = [bb for bb, t in par.calls() if bb in blocks and "EncodedStringReader>::" in (callee_names(t)[1] or "")]
+            moves = [bb for bb, t in par.calls() if bb in blocks and (callee_names(t)[1] or "").rsplit("::", 1)[-1] in ("set_position", "seek")]
+            if reads and not moves:
+                rep.violation(R5, par.name, "names-back-to-back", "a loop reads the entry names one after the other without positioning the cursor at each entry's recorded name address: a conforming image whose names are stored in another order, or apart from each other, gives the entries the wrong names", pw)
+                return
         rep.inconc(R5, "parse: extraction loop not recognised")
         return
     p, evs, sp, rs, rx, ins = best
